@@ -524,11 +524,14 @@ def gen_s1(rng, c, keys, digests, size, basic="B", used=None):
                 return Miniscript("or_i", c, (sub("V"), sub("V")))
             return Miniscript("andor", c, (sub("B", 3), sub("V", 3), sub("V", 3)))
         if sz <= 1:
-            r = rng.choice(["c:", "c:", "c:", "1", "0", "hash"])
+            r = rng.choice(["c:", "c:", "c:", "1", "0", "hash", "lock"])
         else:
-            r = rng.choice(["c:", "n:", "d:", "and_v", "and_b", "or_b", "or_d", "or_i", "andor", "1", "0", "hash"])
+            r = rng.choice(["c:", "n:", "d:", "and_v", "and_b", "or_b", "or_d", "or_i", "andor", "1", "0", "hash", "lock"])
         if r in ("0", "1"):
             return Miniscript(r, c)
+        if r == "lock":
+            return Miniscript(rng.choice(["older", "after"]), c, threshold=rng.choice(
+                [1, 2, 16, 17, 144, 65535, 4194305, 499999999, 500000000, 500000001, 2147483647]))
         if r == "hash":
             h = rng.choice(HASHES)
             return Miniscript(h, c, data=bytes.fromhex(rng.choice(digests[h])))
@@ -693,7 +696,8 @@ def run(ctx):
     sat_cap = ctx.n(1500, 60000)
     exec_lines = []
     exec_cap = ctx.n(2500, 60000)
-    S1 = {"0", "1", "pk_k", "pk_h", "sha256", "hash256", "ripemd160", "hash160", "c:", "v:", "a:", "s:", "n:", "d:",
+    S1 = {"0", "1", "pk_k", "pk_h", "older", "after", "sha256", "hash256", "ripemd160", "hash160", "c:", "v:", "a:", "s:",
+          "n:", "d:",
           "and_v", "and_b", "or_b", "or_c", "or_d", "or_i", "andor"}
     for n in spend_nodes[:ctx.n(150, 3000)]:
         text = str(n)
@@ -789,9 +793,9 @@ def run(ctx):
         ctx.note("miniscript_sizer/max_witness_stack under-estimates the witness of an INSANE expression, e.g. "
                  + INSANE_SIZER[0])
         del INSANE_SIZER[:]
-    ctx.note("T3/T4 are partial: covered_constructors = 0, 1, pk_k, pk_h, sha256, hash256, ripemd160, hash160, c:, v:, "
-             "a:, s:, n:, d:, and_v, and_b, or_b, or_c, or_d, or_i, andor (Props.C15.type_soundness_partial / "
-             "satisfaction_accepted_partial / satisfy_accepted_partial); not covered: j: older after multi multi_a thresh, the satisfier's choice and "
+    ctx.note("T3/T4 are partial: covered_constructors = 0, 1, pk_k, pk_h, older, after, sha256, hash256, ripemd160, hash160, "
+             "c:, v:, a:, s:, n:, d:, and_v, and_b, or_b, or_c, or_d, or_i, andor (Props.C15.type_soundness_partial / "
+             "satisfaction_accepted_partial / satisfy_accepted_partial); not covered: j: multi multi_a thresh, the satisfier's choice and "
              "the soundness of the static bounds (bounds tables: `bounds` stream; actual spends: `spend` oracle)")
     ctx.note(f"spend oracle: {produced} satisfactions produced and run through the real engine (p2wsh and tapscript)")
     for n in nodes:
